@@ -47,6 +47,12 @@ def _register_extras():
         vx=FieldMetadata(description='verif extra pointwise', units='u'),
         vm=FieldMetadata(dimensions=Dimensions(Dimension.TRAJECTORY), field_type=np.int32, description='verif extra scalar', units='u'),
     )
+    # same field names as vf_extras, another definition (scalar of another type, other units)
+    FieldSet(
+        'vf_extras_alt',
+        vx=FieldMetadata(description='verif extra pointwise', units='other'),
+        vm=FieldMetadata(dimensions=Dimensions(Dimension.TRAJECTORY), field_type=np.float64, description='verif extra scalar', units='u'),
+    )
     _extras_registered = True
 
 
@@ -54,14 +60,14 @@ def npoints_of(p: int, big: bool) -> int:
     return (4000 if big else 6) + int(p)
 
 
-def make_payload(p: int, fid: int, big: bool = False, missing: str | None = None, extras: bool = False):
+def make_payload(p: int, fid: int, big: bool = False, missing: str | None = None, extras: bool | str = False):
     """Deterministic trajectory for payload id p; every field distinct per p."""
     _, Trajectory, *_ = _aeic()
     n = npoints_of(p, big)
     fieldsets = None
     if extras:
         _register_extras()
-        fieldsets = ['vf_extras']
+        fieldsets = ['vf_extras_alt' if extras == 'alt' else 'vf_extras']
     t = Trajectory(n, name=f'p{p}', fieldsets=fieldsets)
     for k, f in enumerate(POINT_FIELDS):
         setattr(t, f, p * 1000.0 + k * 10 + np.arange(n, dtype=float) / 8.0)
@@ -76,7 +82,7 @@ def make_payload(p: int, fid: int, big: bool = False, missing: str | None = None
         t.flight_id = fid
     if extras:
         t.vx = np.arange(n, dtype=float)
-        t.vm = 5
+        t.vm = 5.0 if extras == "alt" else 5
     return t
 
 
@@ -196,6 +202,9 @@ class StoreRunner:
                     t = make_payload(9, 99 if has_ids else 0, self.big, missing='starting_mass', extras=self.extras)
                 elif arg == 'fieldset_mismatch':
                     t = make_payload(9, 99 if has_ids else 0, self.big, extras=not self.extras)
+                elif arg == 'fieldset_redefined':
+                    # realisable where the store's trajectories carry vf_extras; elsewhere it is the plain mismatch
+                    t = make_payload(9, 99 if has_ids else 0, self.big, extras='alt' if self.extras else True)
                 elif arg == 'id_inconsistent':
                     t = make_payload(9, 0 if self.spec_indexable else 99, self.big, extras=self.extras)
                 else:
